@@ -228,6 +228,19 @@ def main():
             top.add(Series(p)(d=top.d, g=top.g, s=top.s, b=top.b), name="st")
             del held
             return top
+        if k == 16:
+            # one SUB-bundle reference (`link.tx`) driving several bundle ports of one instance, twice over
+            T = h.Bundle(name="ShapeLane"); T.add(h.Signal(name="p")); T.add(h.Signal(name="n"))
+            L = h.Bundle(name="ShapeLink"); L.add(T(), name="tx"); L.add(T(), name="rx")
+            lb = h.Module(name="ShapeLoopback")
+            for pn in ("a", "b", "c", "d"):
+                lb.add(T(port=True), name=pn)
+            lb.add(h.R(r=1)(p=lb.a.p, n=lb.b.n), name="r1"); lb.add(h.R(r=2)(p=lb.c.p, n=lb.d.n), name="r2")
+            top = h.Module(name="ShapeSubRefs")
+            top.add(L(), name="link")
+            top.add(lb(a=top.link.tx, b=top.link.tx, c=top.link.tx, d=top.link.rx), name="u0")
+            top.add(lb(d=top.link.rx, c=top.link.rx, b=top.link.tx, a=top.link.rx), name="u1")
+            return top
         raise ValueError(k)
 
     shape_state = {}
